@@ -173,6 +173,8 @@ def run_base():
 
 
 def run_wrappers():
+    from .common import defaults_facts
+    defaults_facts(['fornberg.fd_weights', 'fornberg.fd_weights_all'])
     fb = mods()['fb']
     with installed(fb):
         seen = {}
